@@ -95,6 +95,27 @@ theorem drainNotifications_shape : ∀ (ns : List (Nat × DataRequest)) {s s' : 
       · rename_i s2 h2
         exact ((track_shape h1).trans (reschedule_shape h2)).trans (drainNotifications_shape rest h)
 
+/-! ### wake-up of the parked members of a group whose turn moved -/
+
+theorem clearWaiters_core (s : RState) (i : Nat) (fd : FilterData) : CoreEq s (clearWaiters s i fd) := ⟨rfl, rfl, rfl⟩
+
+theorem noteTurn_core (s0 s1 : RState) (req : DataRequest) : CoreEq s1 (noteTurn s0 s1 req) := by
+  unfold noteTurn
+  split
+  · split
+    · exact ⟨rfl, rfl, rfl⟩
+    · exact CoreEq.refl _
+  · exact CoreEq.refl _
+
+theorem wakeParked_shape {s s' : RState} {logs : List Nat} (h : wakeParked s logs = .ok s') : Shape RT s s' :=
+  wakeParked_rel (Shape RT) Shape.refl (fun _ _ _ => Shape.trans)
+    (fun s i fd _ => (clearWaiters_core s i fd).shape) (fun _ _ ns h => drainNotifications_shape ns h) h
+
+theorem wakeTurnMoved_shape {s s' : RState} (h : wakeTurnMoved s = .ok s') : Shape RT s s' :=
+  wakeTurnMoved_rel (Shape RT) Shape.refl (fun _ _ _ => Shape.trans)
+    (fun s i fd _ => (clearWaiters_core s i fd).shape) (fun _ _ ns h => drainNotifications_shape ns h)
+    (fun _ => Shape.of_eq rfl rfl rfl) h
+
 /-! ### datalog -/
 
 theorem dlMatches_core {s s' : RState} {topic : String} {v : List Nat}
@@ -302,12 +323,17 @@ theorem subscribeFilters_shape {id : Nat} {subId : Option Nat} : ∀ (fs : List 
           have a : Shape (RO id) s (nextNativeOffset s (sfFilter f.path)).1 := (nextNativeOffset_core s _).shape
           exact (a.trans (prepareFilter_shape h1)).trans (subscribeFilters_shape rest h)
 
+theorem RU.self {id : Nat} {c c' : Conn} (h1 : c.sameId c') (h2 : c.out.forgot c'.out) : RU id id c c' :=
+  ⟨h1, h2, fun h => absurd rfl h⟩
+
+/-- UNSUBSCRIBE of one filter: the window of `id` may forget cursors (`unsubOut`), nothing else
+    of the `RO` shape changes -/
 theorem ufState_shape {s : RState} {id : Nat} {ids : List Nat} {c : Conn} {f : String}
-    (hc : getConn s id = some c) : Shape (RO id) s (ufState s id ids c f) :=
-  Shape.of_set hc rfl rfl rfl (RO.self ⟨rfl, rfl, rfl, rfl⟩ rfl)
+    (hc : getConn s id = some c) : Shape (RU id) s (ufState s id ids c f) :=
+  Shape.of_set hc rfl rfl rfl (RU.self ⟨rfl, rfl, rfl, rfl⟩ (unsubOut_spec _ _ _ _))
 
 theorem unsubscribeFilters_shape {id : Nat} : ∀ (fs : List String) {s s' : RState} {rs rs' : List Bool},
-    unsubscribeFilters s id fs rs = .ok (s', rs') → Shape (RO id) s s'
+    unsubscribeFilters s id fs rs = .ok (s', rs') → Shape (RU id) s s'
   | [], s, s', rs, rs', h => by
     simp only [unsubscribeFilters, Except.ok.injEq, Prod.mk.injEq] at h
     obtain ⟨rfl, _⟩ := h; exact Shape.refl _
